@@ -1,9 +1,11 @@
 package main
 
 import (
+	"encoding/json"
 	"fmt"
 	"math/rand"
 	"os"
+	"os/exec"
 	"path/filepath"
 	"reflect"
 	"runtime"
@@ -155,6 +157,13 @@ func engineConcSearch(ctx *Ctx) {
 		if len(words) > 1 { // one-word requests and longer requests that share the word
 			w1, w2 := vlib.Word(r, words), vlib.Word(r, words)
 			mix = append(mix, qo{w1, baseO}, qo{w1 + " " + w2, baseO}, qo{w2, baseO})
+			// requests that read alike once punctuation and spacing are ignored but are not the same request
+			base := []string{"reading ", "preview ", "looking at ", "see "}[r.Intn(4)] + vlib.Word(r, words) + " " + vlib.Word(r, words)
+			tail := [][2]string{{" without opening", " without, opening"}, {" without editing", " without; editing"}, {" and then " + w1, " and, then  " + w1}}[r.Intn(3)]
+			if r.Intn(2) == 0 {
+				tail[0], tail[1] = tail[1], tail[0]
+			}
+			mix = append(mix, qo{base + tail[0], baseO}, qo{base + tail[1], baseO})
 		}
 		G := []int{4, 8, 16, 32}[r.Intn(4)]
 		K := ctx.Pick(12, 20)
@@ -255,6 +264,41 @@ func engineConcSearch(ctx *Ctx) {
 						ctx.R.Violate(vlib.Violation{Property: "C11", Clause: "not-as-if-alone", Path: "SearchUniversal/fresh-instance",
 							Detail:  fmt.Sprintf("the answer for %q on the instance that served the concurrent searches differs from the answer it gets as the only search on a fresh instance: %s", mix[i].q, why),
 							Witness: map[string]interface{}{"case": cs, "alone_on_fresh_instance": alone, "on_used_instance": seq[i].refs[0]}})
+					}
+				}
+			})
+		}
+		// ... and as a search of another process altogether (what a search "returns when run alone" cannot depend on what this
+		// process has analysed, cached or remembered so far): a child loads the same file and answers the requests last to first
+		if (how == "LoadDatabase" || how == "LoadDatabaseWithFallback(good path)") && dbName != "shipped" && !withEmb {
+			ctx.R.Guard("C11", "alone in another process", cs, func() {
+				fp := filepath.Join(ctx.Scratch, fmt.Sprintf("calone%d.yml", rd))
+				jp := filepath.Join(ctx.Scratch, fmt.Sprintf("calone%d.json", rd))
+				defer os.Remove(fp)
+				defer os.Remove(jp)
+				if vlib.WriteYAML(fp, cmds) != nil {
+					return
+				}
+				job := c02Job{DBPath: fp, Kind: "file"}
+				for i := len(mix) - 1; i >= 0; i-- {
+					job.Cases = append(job.Cases, c02Q{Query: mix[i].q, Opts: vlib.OptsJ(mix[i].o), SQ: "x"})
+				}
+				jb, _ := json.Marshal(job)
+				os.WriteFile(jp, jb, 0o644)
+				self, _ := os.Executable()
+				out, err := exec.Command(self, "detsearch", jp).Output()
+				var ans []c02Ans
+				if err != nil || json.Unmarshal(out, &ans) != nil || len(ans) != len(mix) {
+					ctx.R.Inconcl("child process for the alone-comparison failed")
+					return
+				}
+				for k, a := range ans {
+					i := len(mix) - 1 - k
+					ctx.R.Path("other-process-answers-compared", 1)
+					if v, why := vlib.CompareToRef(seq[i].refs, seq[i].stable, a.Ranked, vlib.LimitInForce(baseO.Limit)); v == "violated" {
+						ctx.R.Violate(vlib.Violation{Property: "C11", Clause: "not-as-if-alone", Path: "SearchUniversal/other-process",
+							Detail:  fmt.Sprintf("the answer for %q in the process that served the concurrent searches differs from its answer in a fresh process that loaded the same file: %s", mix[i].q, why),
+							Witness: map[string]interface{}{"case": cs, "in_a_fresh_process": a.Ranked, "in_this_process": seq[i].refs[0]}})
 					}
 				}
 			})
@@ -758,6 +802,7 @@ func engineConcLRU(ctx *Ctx) {
 		}
 	}
 	ctx.R.Extra["distinct_interleaving_shapes_per_shard_sum"] = len(shapes)
+	c11Snapshots(ctx, r)
 	// hammer phase for the race detector: more goroutines, longer, no recording
 	for round := 0; round < ctx.Pick(6, 40); round++ {
 		lru := cache.NewLRUCache(1+r.Intn(4), []time.Duration{0, time.Hour}[r.Intn(2)])
@@ -790,5 +835,148 @@ func engineConcLRU(ctx *Ctx) {
 		}
 		wg.Wait()
 		ctx.R.Path("lru-hammer-rounds", 1)
+	}
+}
+
+// c11Snapshots: one writer runs a fixed script (Put / Get / Delete / Clear) on a cache while readers call Stats() in a tight
+// loop. The script run alone on a second instance gives the sequence of states the cache passes through; with a single
+// writer every Stats() answer must be one of those states, and a reader never sees an earlier state after a later one
+// (an answer assembled from two moments - the size of one, the counters of another - is in no sequential state).
+func c11Snapshots(ctx *Ctx, r *rand.Rand) {
+	rounds := ctx.Pick(40, 400)
+	for rd := 0; rd < rounds; rd++ {
+		capacity := 1 + r.Intn(3)
+		nKeys := 1 + r.Intn(3)
+		viaSC := rd%4 == 3
+		L := 150 + r.Intn(250)
+		type op struct {
+			code byte
+			key  string
+		}
+		script := make([]op, L)
+		for i := range script {
+			k := fmt.Sprintf("k%d", r.Intn(nKeys))
+			switch x := r.Intn(10); {
+			case x < 3:
+				script[i] = op{'C', ""} // clear: the counters go back to zero
+			case x < 6:
+				script[i] = op{'P', k}
+			case x < 9:
+				script[i] = op{'G', k}
+			default:
+				script[i] = op{'D', k}
+			}
+		}
+		type snap [4]int64
+		mk := func() (*cache.LRUCache, *cache.SearchCache) {
+			if viaSC {
+				sc := cache.NewSearchCache(capacity, 0)
+				return sc.VerifLRU(), sc
+			}
+			return cache.NewLRUCache(capacity, 0), nil
+		}
+		apply := func(l *cache.LRUCache, sc *cache.SearchCache, o op) {
+			switch o.code {
+			case 'C':
+				if sc != nil {
+					sc.Invalidate()
+				} else {
+					l.Clear()
+				}
+			case 'P':
+				if sc != nil {
+					sc.Put(o.key, cache.SearchOptions{Limit: 1}, []cache.SearchResult{{Command: "v", Score: 1}})
+				} else {
+					l.Put(o.key, "v")
+				}
+			case 'G':
+				if sc != nil {
+					sc.Get(o.key, cache.SearchOptions{Limit: 1})
+				} else {
+					l.Get(o.key)
+				}
+			default:
+				if sc == nil {
+					l.Delete(o.key)
+				} else {
+					sc.Size()
+				}
+			}
+		}
+		stats := func(l *cache.LRUCache, sc *cache.SearchCache) snap {
+			var st cache.Stats
+			if sc != nil {
+				st = sc.Stats()
+			} else {
+				st = l.Stats()
+			}
+			return snap{st.Hits, st.Misses, st.Evictions, int64(st.Size)}
+		}
+		// the states of the script run alone
+		l0, sc0 := mk()
+		seq := []snap{stats(l0, sc0)}
+		for _, o := range script {
+			apply(l0, sc0, o)
+			seq = append(seq, stats(l0, sc0))
+		}
+		cs := map[string]interface{}{"capacity": capacity, "keys": nKeys, "script_ops": L, "via_search_cache": viaSC, "readers": 4}
+		ctx.R.Begin(cs)
+		ctx.R.Eval(1)
+		l1, sc1 := mk()
+		var done int32
+		var wg sync.WaitGroup
+		type bad struct {
+			reader int
+			got    snap
+			after  int
+		}
+		bads := make(chan bad, 8)
+		var reads int64
+		for g := 0; g < 4; g++ {
+			wg.Add(1)
+			go func(g int) {
+				defer wg.Done()
+				pos := 0 // index of the earliest state this reader may still see
+				for atomic.LoadInt32(&done) == 0 {
+					got := stats(l1, sc1)
+					atomic.AddInt64(&reads, 1)
+					found := -1
+					for i := pos; i < len(seq); i++ {
+						if seq[i] == got {
+							found = i
+							break
+						}
+					}
+					if found < 0 {
+						select {
+						case bads <- bad{g, got, pos}:
+						default:
+						}
+						return
+					}
+					pos = found
+				}
+			}(g)
+		}
+		for _, o := range script {
+			apply(l1, sc1, o)
+		}
+		atomic.StoreInt32(&done, 1)
+		wg.Wait()
+		close(bads)
+		ctx.R.Path("snapshot-rounds", 1)
+		ctx.R.Path("snapshot-reads", atomic.LoadInt64(&reads))
+		ctx.R.Nontriv("snapshots", rd, capacity, nKeys, L)
+		for b := range bads {
+			path := "LRUCache.Stats"
+			if viaSC {
+				path = "SearchCache.Stats"
+			}
+			ctx.R.Violate(vlib.Violation{Property: "C11", Clause: "not-linearizable", Path: path + "/single-writer",
+				Detail: fmt.Sprintf("while one goroutine ran a script of %d operations, a concurrent Stats() returned hits=%d misses=%d evictions=%d size=%d, which is none of the states the cache passes through from state %d of the script on",
+					L, b.got[0], b.got[1], b.got[2], b.got[3], b.after),
+				Witness: map[string]interface{}{"case": cs, "reader": b.reader, "observed": b.got, "not_before_state": b.after}})
+			break
+		}
 	}
 }
